@@ -160,7 +160,10 @@ TMark == /\ Ev.e \in {"Quiescent", "Timeout", "Block", "CleanupDone"}
                                           !.adoptstuck = (\E p \in Payloads : pst[p] = "submitting" /\ adoptret[p] = "-"),
                                           !.execstuck = (\E x \in DOMAIN Execs : xst[x] \in {"called", "started", "finished"})]
                        [] Ev.e = "Timeout" -> [marks EXCEPT !.timeouts = @ + 1,
-                                                            !.stall = @ \/ (Ev.what = "command" /\ phase[1] = "running" /\ ~Triggered /\ marks.blocked)]
+                                                            \* a running payload did not answer a command within 1 s
+                                                            \* although nothing has triggered termination
+                                                            !.stall = @ \/ (Ev.what = "command" /\ phase[1] = "running" /\ ~Triggered
+                                                                            /\ Ev.p \in Payloads /\ pst[Ev.p] = "running")]
                        [] Ev.e = "Block" -> [marks EXCEPT !.blocked = TRUE]
                        [] OTHER -> marks
          /\ UNCHANGED <<phase, guard, pst, starts, endhow, cleanleft, adoptret, sigint, shut, result, xst, h, where, xobs, segopen>>
